@@ -906,8 +906,8 @@ func main() {
 	// scattered differences: own-only slots and newer values on either side), then one side runs the real
 	// syncWithPeer against the other; a second exchange in the opposite direction must then be a no-op.
 	// Shapes: 0 = small initiator / large responder with nothing in common, 1 = large common base with FEW scattered
-	// differences, 2 = medium, 3 = large with many differences, 4 = responder below the ldiff compare threshold
-	// (single-range control), 5 = random.
+	// differences, 2 = medium, 3 = large with many differences, 4 = responder below the ldiff compare threshold of 256
+	// with an initiator at / above it, 5 = random.
 	bigRng := rng.Fork(7)
 	nBig := 0
 	bigCase := func() {
